@@ -93,6 +93,17 @@ public:
     BaseBackend::ReportResults();
     vd::g_dump.flush("reported");
   }
+  /// C10: the six range predicates for every code, as a JSON table
+  void WriteStatusTable(const char* path) {
+    std::ofstream f(path);
+    f << "{";
+    for (int c = -200; c <= 999; ++c) {
+      SetStatus({ c, "x" });
+      f << (c == -200 ? "" : ",") << "\"" << c << "\":[" << IsProblemSolved() << "," << IsProblemSolvedOrFeasible() << ","
+        << IsProblemInfeasible() << "," << IsProblemUnbounded() << "," << IsProblemIndiffInfOrUnb() << "," << IsProblemInfOrUnb() << "]";
+    }
+    f << "}\n";
+  }
 private:
   void RunOps();
   template <class MV> static std::string JMV(const MV& mv);
@@ -228,6 +239,11 @@ std::unique_ptr<mp::BasicBackend> CreateVBackend() {
 
 extern "C" int main(int, char** argv) {
   vd::LoadCfg();
+  if (const char* st = getenv("VDRIVER_STATUS_TABLE")) {
+    mp::VBackend be;
+    be.WriteStatusTable(st);
+    return 0;
+  }
   int rc = mp::RunBackendApp(argv, CreateVBackend);
   return rc;
 }
